@@ -18,6 +18,9 @@ DENSE = ["1.0.dev1", "1.0a1", "1.0a1.post1", "1.0rc1", "1.0", "1.0.post1.dev1", 
 EPOCH = ["0!9", "1!0.dev0", "1!0", "1!0.post1", "1!1.0.1", "2!0", "2!0.0.1", "3!1"]
 LENGTHS = ["1", "1.0.1", "1.1", "1.1.0.0.1", "2", "2.0.0.0.0.3", "10.0", "10.0.1"]
 PLAIN = ["1.0", "2.0", "3.0", "4.0", "5.0", "6.0", "7.0", "8.0"]
+# bounds around the shapes the renderer shortens (`~=X.Y`, `==X.*`, `!=X.*`): a series start, a point just inside the
+# next series, the next series start ...: [1.2, 2.0) prints as ~=1.2, [1.2, 2.0.5) must not
+COMPAT = ["1.2", "2.0", "2.0.5", "2.1", "3.0", "3.0.1", "3.1.0", "4"]
 ALT_SPELLING = {"1": "1.0.0", "1.0": "1", "2": "2.0", "2.0": "2.0.0", "3.0": "3", "1.1": "1.1.0", "10.0": "10",
                 "1.0rc1": "1.0c1", "1.0.post1": "1.0-1", "1.0a1": "1.0.0alpha1", "1!0": "1!0.0", "2!0": "2!0.0.0",
                 "4.0": "4", "5.0": "5.0.0", "0!9": "9"}
@@ -27,7 +30,7 @@ def _check_increasing(vs):
     assert all(Version(a) < Version(b) for a, b in zip(vs, vs[1:])), vs
 
 
-for _e in (DENSE, EPOCH, LENGTHS, PLAIN):
+for _e in (DENSE, EPOCH, LENGTHS, PLAIN, COMPAT):
     _check_increasing(_e)
 
 
@@ -56,7 +59,7 @@ def random_chain(rng: random.Random, n: int) -> list[str]:
 def embeddings(n: int, seed: int, extra_random: int = 1) -> list[dict]:
     rng = random.Random(seed * 7919 + n)
     out = []
-    for name, pool in (("plain", PLAIN), ("dense", DENSE), ("epoch", EPOCH), ("lengths", LENGTHS)):
+    for name, pool in (("plain", PLAIN), ("dense", DENSE), ("epoch", EPOCH), ("lengths", LENGTHS), ("compat", COMPAT)):
         if name in ("dense", "epoch", "lengths") and n < len(pool):
             idx = sorted(rng.sample(range(len(pool)), n))
             if name == "dense" and n >= 3:
